@@ -20,7 +20,7 @@ def account(v, results, prop_label, types=None, what="kernel output differs from
     for r in results:
         if r["status"] in ("rejected", "skipped"):
             st["rejected"] += 1
-            if r["status"] == "rejected" and not r["id"].startswith(("rnd", "rnx", "unsupported")) and "mayreject" not in r["id"]:
+            if r["status"] == "rejected" and not r["id"].startswith(("rnd", "rnx", "rne", "unsupported")) and "mayreject" not in r["id"]:
                 # a hand-written case is meant to be accepted: a rejection is either a harness defect (does not even
                 # build) or FFCx refusing / crashing on input it used to accept
                 v.oblige(False)
